@@ -278,6 +278,16 @@ def execute(case):
         minus = "\n".join(lines[:i] + lines[j + 1:]) + "\n"
         if minus.strip():  # a source consisting of the INCLUDE line only is not judged
             ref_minus = ref.outcome(std, "string", minus, opts, want=["stmts"])
+    from fparser.common import sourceinfo
+
+    main_text_probe = "\n".join(case["main_lines"]) + "\n"
+    if sourceinfo.get_source_info_str(main_text_probe).is_free != \
+            sourceinfo.get_source_info_str(inlined).is_free:
+        # e.g. the whole program moved into the include file and the remaining INCLUDE line
+        # indented by six blanks: which form the main text is in is C05's question
+        return {"events": [["form-mismatch"]], "violations": [], "stats": stats,
+                "nontrivial": False, "state_keys": [],
+                "discarded": "main-text-detected-in-another-source-form-than-the-inlined-text"}
     if ref_full["outcome"][0] != "ok":
         return {"events": [["ref-rejects", ref_full["outcome"][0]]], "violations": [],
                 "stats": stats, "nontrivial": False, "state_keys": [],
